@@ -23,8 +23,8 @@ BUDGET = {'quick': 6000, 'thorough': 160000}
 
 PROFILE = {
     'weights': {'app': 12, 'down': 4, 'up': 3, 'freeze': 3, 'unfreeze': 2,
-                'bl': 3, 'adv': 4, 'adv_ret': 4, 'downseq': 5, 'freezeflip': 2, 'stalemark': 3},
-    'force': ['down', 'adv_ret', 'downseq'],
+                'bl': 3, 'adv': 4, 'adv_ret': 4, 'downseq': 5, 'freezeflip': 2, 'stalemark': 3, 'freezedown': 4},
+    'force': ['down', 'adv_ret', 'downseq', 'freezedown'],
     'lease': False,
 }
 
